@@ -336,8 +336,23 @@ impl World {
     }
 }
 
-fn read_bits<B: Bitmap>(reg: &GuestRegionMmap<B>, page: usize, npages: usize) -> Vec<bool> {
-    (0..npages + 3).map(|p| reg.bitmap().dirty_at(p.saturating_mul(page))).collect()
+/// The marked set of a region. Where the bitmap is (or wraps) an `AtomicBitmap` it is read by PAGE
+/// INDEX (`is_bit_set`), the way a harvester sees it - an address-based read-out goes through the
+/// same address-to-page computation as the marking itself and would hide a mistake made in both -
+/// and the address-based view (`dirty_at`) must agree with it.
+fn read_bits<B: Bitmap + 'static>(reg: &GuestRegionMmap<B>, page: usize, npages: usize) -> Vec<bool> {
+    let by_addr: Vec<bool> = (0..npages + 3).map(|p| reg.bitmap().dirty_at(p.saturating_mul(page))).collect();
+    let any = reg.bitmap() as &dyn std::any::Any;
+    let inner: Option<&AtomicBitmap> = any.downcast_ref::<AtomicBitmap>().or_else(|| any.downcast_ref::<Option<AtomicBitmap>>().and_then(|o| o.as_ref()));
+    if let Some(ab) = inner {
+        let by_index: Vec<bool> = (0..npages + 3).map(|p| ab.is_bit_set(p)).collect();
+        if by_index != by_addr {
+            let p = by_index.iter().zip(by_addr.iter()).position(|(a, b)| a != b).unwrap();
+            out::viol(if by_index[p] { "C16/page-index-view-shows-a-page-the-address-view-does-not" } else { "C05/address-view-shows-a-page-the-page-index-view-does-not" }, jobj! {"page_size" => page, "page" => p, "is_bit_set" => by_index[p], "dirty_at(page*page_size)" => by_addr[p]});
+        }
+        return by_index;
+    }
+    by_addr
 }
 
 fn straddle(page: usize, x: usize, n: usize, rlen: usize) -> &'static str {
@@ -553,13 +568,12 @@ fn typed_write<T: vm_memory::ByteValued, S: BitmapSlice>(s: &VolatileSlice<S>, o
             // window whose length is NOT a multiple of the element size (or shorter than one
             // element) and the buffer holds more elements than fit: only whole elements are written
             let n = payload.len() / es;
-            let mut buf: Vec<T> = (0..n).map(|i| t_from_bytes::<T>(&payload[i * es..(i + 1) * es])).collect();
+            let buf: Vec<T> = (0..n).map(|i| t_from_bytes::<T>(&payload[i * es..(i + 1) * es])).collect();
+            // (the window is SHORTER than the payload, so that every byte that can land is the
+            // complement of what it lands on - the diff-driven oracle needs every written byte to change)
             if es > 1 && payload.len() >= es && r.chance(1, 2) {
-                let k = (payload.len() + r.usize_below(es)).saturating_sub(r.usize_below(2 * es));
+                let k = payload.len().saturating_sub(1 + r.usize_below(2 * es));
                 if let Ok(sub) = s.subslice(off, k) {
-                    for _ in 0..2 {
-                        buf.push(t_from_bytes::<T>(&payload[..es]));
-                    }
                     sub.copy_from(&buf);
                     return "copy_from(window-not-a-multiple-of-the-element)";
                 }
@@ -1477,7 +1491,66 @@ fn harvest_litmus(rounds: u64) {
     out::eval(rounds);
 }
 
+/// WEAK-MEMORY litmus for the interpreter (Miri models C++20 atomics; x86 hardware cannot show
+/// this): one tracked write whose pages span TWO bitmap words, a harvester that takes the words one
+/// by one and, for every page it found dirty, reads the page's bytes the way a migration thread
+/// would. Finding a page dirty must order the harvester's read after the write - for every word
+/// the mark touched, not only the first: a stale byte is a violation here, and a mark published
+/// with too weak an ordering is reported by the interpreter itself as a data race.
+#[cfg(miri)]
+fn weak_memory_litmus(rounds: u64) {
+    let reg = make_region::<FAtomic>(0x1000, 192, 1, &mut Rng::new(1, "wm-litmus", 0));
+    let gm = std::sync::Arc::new(GuestMemoryMmap::from_regions(vec![reg]).unwrap());
+    for r in 1..=rounds {
+        let val = 0x0101_0101_0101_0101u64 * (r & 0x7f | 0x80);
+        let g2 = gm.clone();
+        let w = std::thread::spawn(move || {
+            // bytes 60..68: pages 60..=63 in word 0, pages 64..=67 in word 1
+            let _ = g2.write_obj::<u64>(val, GuestAddress(0x1000 + 60));
+        });
+        let region = gm.iter().next().unwrap();
+        let host = region.as_ptr();
+        let mut seen = 0u32;
+        for _ in 0..40 {
+            let words = match inner_of(region.bitmap()) {
+                Some(ab) => ab.get_and_reset(),
+                None => return,
+            };
+            for p in 60..68usize {
+                if words[p / 64] >> (p % 64) & 1 == 1 {
+                    // SAFETY: inside the region; a plain read as a migration thread would do it.
+                    let b = unsafe { host.add(p).read_volatile() };
+                    seen += 1;
+                    if b != val as u8 {
+                        out::viol("C05/weak-memory-litmus/page-found-dirty-but-its-bytes-are-stale", jobj! {"round" => r, "page" => p, "byte" => b, "written" => val as u8});
+                        let _ = w.join();
+                        return;
+                    }
+                }
+            }
+            if seen >= 8 {
+                break;
+            }
+            std::thread::yield_now();
+        }
+        let _ = w.join();
+        out::eval(1);
+    }
+    out::key("weak-memory-litmus|write-spanning-two-bitmap-words", true);
+    out::count("weak_memory_litmus_rounds", rounds as i128);
+}
+
+#[cfg(miri)]
+fn inner_of<B: Bitmap + 'static>(b: &B) -> Option<&AtomicBitmap> {
+    (b as &dyn std::any::Any).downcast_ref::<AtomicBitmap>()
+}
+
 pub fn run(args: &Args) {
+    #[cfg(miri)]
+    if args.flag("wmlitmus") {
+        weak_memory_litmus(args.u64("wmlitmus", 3));
+        return;
+    }
     #[cfg(not(feature = "xen"))]
     if args.shard().0 == 2 % args.shard().1 && !cfg!(miri) && !args.flag("nolitmus") {
         harvest_litmus(args.u64("litmus", 3_000_000));
